@@ -118,6 +118,10 @@ def gen_model(rng):
             # (distinct names: the uniquifying suffix of repeated names is not injective - `X`, `X`, `X_2` - and a
             # second helper for a repeated name runs into that; a recorded observation, not this family's business)
             e["name"] = f"E_{i}"
+    if rng.random() < 0.06:
+        # a group of alleles that happens to be empty of which one copy is wanted: the row has no variable in it
+        # and cannot be satisfied (Python folds it to False before the interface sees it)
+        m["empty_group"] = rng.choice([1, 2])
     if rng.random() < 0.2:
         # error terms whose bounds are not symmetric around zero
         m["err_bounds"] = rng.choice([[-6, 1], [-5, 0.5], [-8, 2], [-1, 6]])
@@ -329,6 +333,8 @@ def evidence(acc):
 
 def _intended(m, b):
     """Feasibility and intended objective of a base assignment b (tuple of 0/1)."""
+    if m.get("empty_group"):
+        return None
     for c in m["card"]:
         s = sum(b[j] for j in c["idx"])
         if c["op"] == "==" and s != c["k"]:
@@ -405,6 +411,8 @@ def _build(m):
             M.addConstr(expr >= c["k"], name=f"CARD_{ci}")
     for i, j in m["order"]:
         M.addConstr(B[i] <= B[j], name=f"CORD_{i}_{j}")
+    if m.get("empty_group"):
+        M.addConstr(sum(B[j] for j in []) >= m["empty_group"], name="CSAT_empty")
     o_abs = M.abssum(E, coeffs=coeffs)
     obj = o_abs
     if m.get("abs_twice"):
@@ -636,7 +644,7 @@ def _two_phase(m, viol, stats):
     import aldy.lpinterface as lpi
 
     if m["prods"] or len(m["bins"]) < 2 or len(set(m["bins"])) != len(m["bins"]) or m.get("lin_const") or m.get("zint") \
-            or m.get("abs_twice") or m.get("err_bounds"):
+            or m.get("abs_twice") or m.get("err_bounds") or m.get("empty_group"):
         return 0
     base = dict(m, bins=m["bins"][:-1])
     last = len(m["bins"]) - 1
@@ -698,17 +706,20 @@ def _w2(viol, stats):
     n = 0
     for k in range(1, 5):
         for vals in itertools.product((0, 1), repeat=k):
-            for direction in ("min", "max"):
+            for direction in ("min", "max", "min-continuous", "max-continuous"):
                 M = lpi.model("P", "cbc")
                 F = [M.addVar(vtype="B", name=f"F_{i}") for i in range(k)]
                 for f, v in zip(F, vals):
                     M.addConstr(f <= v, name="FIX")
                     M.addConstr(f >= v, name="FIX")
-                res = M.prod(M.addVar(vtype="B", name="RES"), F)
+                # (the helper is exact for a product variable that is merely bounded to [0, 1] as well)
+                rv = M.addVar(vtype="B", name="RES") if "-" not in direction else M.addVar(lb=0, ub=1, name="RES")
+                res = M.prod(rv, F)
+                direction = direction.split("-")[0]
                 M.setObjective(res, method=direction)
                 st, obj = M.solve()
                 n += 1
-                if st != "optimal" or M.getValue(res) != bool(all(vals)):
+                if st != "optimal" or abs(float(M.getValue(res)) - float(all(vals))) > 1e-6:
                     viol.append({"clause": "product variable differs from the AND of its factors",
                                  "detail": {"mode": "w2", "factors": list(vals), "direction": direction,
                                             "got": repr(M.getValue(res)), "status": st}})
